@@ -88,7 +88,7 @@ def _built_cases(ctx, n, glyph_counts, first_id, again, fresh, label, focus="ran
                       timeout=600, label=label)
     else:
         res = ctx.tlc("FontCycleGen", cfg="FCGen.cfg", files={"FCGen.cfg": cfg}, workers=2, timeout=600, label=label)
-        n = 20
+        n = 15
     if res.violated:
         raise vlib.Infra("FontCycleGen violated %s: the configuration generator is wrong" % res.violated)
     if len(res.cases) < n:
@@ -216,6 +216,14 @@ def _describe(case, events, bad):
     elif cl == "rewrite":
         head = "writing the same font again gives different bytes (%s)" % ", ".join(bad["why"])
         parts.append("files: " + ", ".join("b%d[%s]=%s/%d" % (e["i"], e["how"], e["sha"][:12], e["len"]) for e in files))
+    elif cl == "mutated":
+        head = "Write changed the font it was given (projection before and after the writes differ) in " + ", ".join(bad["why"])
+        for e in events:
+            if e["ev"] == "after":
+                for k in bad["why"]:
+                    va, vb = gens.get(e["i"], {}).get(k), e["f"].get(k)
+                    if va != vb:
+                        parts.append("%s: g%d before=%s after=%s" % (k, e["i"], json.dumps(va)[:120], json.dumps(vb)[:120]))
     elif cl == "fail":
         msgs = [e for e in events if e["ev"] == "fail"]
         head = "a step of the cycle failed: " + "; ".join("%s: %s" % (e["step"], e["msg"]) for e in msgs)
@@ -330,6 +338,7 @@ def run(ctx):
     # every run: all layout-table kinds with rich script lists (several scripts, 0..5 explicit language systems,
     # features sharing a tag, lookups shared by features), written 1+4 times here and 2 times in fresh processes;
     # and every scalar field taken through its domain including the extremes, one at a time
+    shapes = _built_cases(ctx, 0, [30], 130001, 3, 2, "FontCycleGen focus shapes (exhaustive)", focus="shapes")
     layout = _built_cases(ctx, 0, [30], 110001, 4, 2, "FontCycleGen focus layout (exhaustive)", focus="layout")
     onef = _built_cases(ctx, 0, [30], 120001, 2, 1, "FontCycleGen focus onefactor (exhaustive)", focus="onefactor")
     ctx.sample({"tlc_configuration": built[0]})
@@ -353,7 +362,7 @@ def run(ctx):
 
     # the harness runs on small chunks in parallel; the traces of a group are validated together
     # (at most 1500 cases per TLC run)
-    groups = [("large", large, 1), ("layout", layout, 3), ("onefactor", onef, 20), ("built", built, 30), ("tables", tabs, 75), ("bytes", corpus, 100)]
+    groups = [("large", large, 1), ("shapes", shapes, 3), ("layout", layout, 3), ("onefactor", onef, 20), ("built", built, 30), ("tables", tabs, 75), ("bytes", corpus, 100)]
     for name, cases, size in groups:
         done = _run_chunks(ctx, binp, cases, d, name, size)
         if name == "built":
@@ -381,7 +390,7 @@ def run(ctx):
                      "real code is not a fixed point on %d" % (agree, len(tabs), sum(1 for c in tabs if c["id"] in badids)))
 
     distinct = set()
-    for c in built + large + layout + onef:
+    for c in built + large + layout + onef + shapes:
         distinct.add(json.dumps(c["cfg"], sort_keys=True))
     for c in tabs:
         distinct.add(json.dumps(c["tab"], sort_keys=True))
@@ -390,7 +399,7 @@ def run(ctx):
     ctx.cov["distinct_nontrivial"] = len(distinct)
     ctx.cov["rule"] = ("distinct TLC-drawn font configurations + distinct TLC-drawn table sets + distinct byte strings accepted by "
                        "sfnt.Read; each is one five-step cycle with repeated writes; evaluations = recorded events validated by TLC")
-    ctx.cov["cases"] = {"built": len(built) + len(large) + len(layout) + len(onef), "tables": len(tabs), "bytes": len(corpus), "marked_bad_by_TLC": len(pending)}
+    ctx.cov["cases"] = {"built": len(built) + len(large) + len(layout) + len(onef) + len(shapes), "tables": len(tabs), "bytes": len(corpus), "marked_bad_by_TLC": len(pending)}
     if pending:
         _report(ctx, pending)
 
